@@ -218,6 +218,12 @@ class FBuilder(Builder):
             pass
         return pos.astype(np.int64)
 
+    def fail(self, kind, t):
+        """a statement that must raise and leave no trace (no mirror / model effect)"""
+        self.stmts.append({"op": "fail", "kind": kind, "t": t.name})
+        self._mark()
+        return True
+
     def aug(self, t, fn, v):
         """t <fn>= v   (functional meaning: w = fn(t, v); t[...] = w)"""
         self._ensure_root_info()
@@ -283,6 +289,9 @@ class FBuilder(Builder):
         self._mark()
         return True
 
+
+FAIL_KINDS = ["op_shape", "op_axis", "op_matmul", "op_type", "view_index", "view_reshape", "view_transpose", "inplace_index", "inplace_shape",
+              "inplace_aug", "inplace_out", "inplace_type", "inplace_setshape"]
 
 # ------------------------------------------------------------------------------------------------
 # generators
